@@ -49,6 +49,14 @@ def snapshot(o):
     return pickle.dumps(o)
 
 
+def _valid(m):
+    try:
+        ct.CustomSelectors(m)
+        return True
+    except Exception:
+        return False
+
+
 def run(chk):
     proof_ok = framework.lean_pipeline(chk, SOURCES)
     driver_ok = proof_ok or chk.build(['svdriver'])[0]
@@ -160,6 +168,59 @@ def run(chk):
             bad.append({'what': 'equal compiled selectors with different hashes', 'k1': repr(k1), 'k2': repr(k2)})
         if (a != b) == (a == b):
             bad.append({'what': '__ne__ is not the negation of __eq__', 'k1': repr(k1), 'k2': repr(k2)})
+    # ---------------- (b2) equal argument maps (same items, another insertion order) have the same outcome, cached or fresh
+    names = [':--ab', ':--a\\62', ':--AB', ':--a\\62 ', ':--\\61 b', ':--c', ':--\\63', ':--a b', 'x', ':--d']
+    defs = ['p', 'div', ':--c', ':--ab', 'i >']
+    pat_pool = [':--ab', ':--c', 'p:--ab', ':--d, :--c', 'p']
+
+    def outcome(pat, cu):
+        try:
+            c_ = sv.compile(pat, custom=cu)
+            return ('ok', c_.selectors)
+        except Exception as e:
+            # which of several defects of a map is reported first may depend on the order the caller's dict lists them in;
+            # what must not depend on it is WHETHER compile returns, and what it returns
+            return ('exc',)
+    for _ in range(300 if quick else 6000):
+        items = [(rng.choice(names), rng.choice(defs)) for _ in range(rng.randint(1, 3))]
+        m1 = dict(items)
+        items2 = list(m1.items())
+        rng.shuffle(items2)
+        m2 = dict(items2)
+        if ct.CustomSelectors(m1) != ct.CustomSelectors(m2) if all(isinstance(k, str) for k in m1) and _valid(m1) else False:
+            continue
+        pat = rng.choice(pat_pool)
+        evaluations += 1
+        sv.purge()
+        f1 = outcome(pat, m1)
+        sv.purge()
+        f2 = outcome(pat, m2)
+        sv.purge()
+        h1 = outcome(pat, m1)
+        h2 = outcome(pat, m2)       # m2 after m1 without purge: may be served from the cache
+        if f1 != f2 or h2 != f2 or h1 != f1:
+            bad.append({'what': 'two equal custom maps (same items, another insertion order) do not have the same outcome, or a cached '
+                                'compile differs from a fresh one', 'pattern': pat, 'custom_1': list(m1.items()), 'custom_2': list(m2.items()),
+                        'fresh_1': repr(f1)[:120], 'fresh_2': repr(f2)[:120], 'after_1_without_purge_2': repr(h2)[:120]})
+    # ---------------- (b3) a compile is not influenced by the custom maps of earlier compiles (nested aliases, cycles)
+    xdefs = [':--y:first-child', ':--y > p', 'div :--y', ':--y', 'p']
+    ydefs = ['li', 'p', ':--x', 'div, span', ':--z']
+    for _ in range(200 if quick else 5000):
+        m1 = {':--x': rng.choice(xdefs), ':--y': rng.choice(ydefs)}
+        m2 = {':--x': rng.choice(xdefs), ':--y': rng.choice(ydefs)}
+        if rng.random() < 0.3:
+            m2[':--z'] = 'b'
+        pat = rng.choice([':--x', ':--x, :--y', 'ul > :--x'])
+        evaluations += 1
+        sv.purge()
+        f2 = outcome(pat, m2)
+        sv.purge()
+        outcome(pat, m1)
+        h2 = outcome(pat, m2)
+        if h2 != f2:
+            bad.append({'what': 'compile(pattern, custom=m2) after compile(pattern, custom=m1) differs from a fresh parse of the same arguments',
+                        'pattern': pat, 'custom_1': m1, 'custom_2': m2, 'fresh': repr(f2)[:160], 'after_history': repr(h2)[:160]})
+    sv.purge()
     # ---------------- (d) pass-through
     c = sv.compile('p')
     if sv.compile(c) is not c:
